@@ -444,6 +444,9 @@ def check(run, db, tier):
     run.group(rule_rules, run, db)
     run.group(offaxis_rules, run, db)
     run.group(more_rules, run, db)
+    from . import c10
+    run.group(c10.mirror_rules, Proxy(run, {'C10.sym': 'C09.rule'}), db)
+    run.group(c10.assembly_rules, Proxy(run, {'C10.assembly': 'C09.rule'}), db)
     run.require_instances('C09.id', 40)
     run.require_instances('C09.seed', 9)
     run.require_instances('C09.rule', 20)
